@@ -192,3 +192,26 @@ Proof.
     + intros x Hx Hfx. apply F3; [exact Hx|]. intros p Hp. destruct (In_p p Hp) as (c & Hc & _ & ER). rewrite ER. apply Hfx, Hc.
     + rewrite (V xs Hxs). unfold f in F4. exact F4.
 Qed.
+
+(* ... and through degree reduction: a minimiser of any reduced form of the constrained model, converted back *)
+From QV.Model Require Import Convert Reduce.
+From QV.Proofs Require Import InvProofs ReduceProofs.
+Theorem workflow_seq_reduced cs m m' W x0 out deg l pairs D s :
+  run_ok m cs = Ok m' -> bkind (kd m) -> no_anc (tm m) -> Forall call_ok cs ->
+  let f := fun x => eval x (tm m) in
+  (forall x x', boolean_env x -> boolean_env x' -> f x - f x' <= W) ->
+  (forall c, In c cs -> W < cc_lam c) ->
+  boolean_env x0 -> (forall c, In c cs -> cR c x0) ->
+  reduce_degree m' out deg l pairs = Ok D -> bmat out -> Inv m' -> is_labelled (kd m') = true ->
+  (forall ms, mapped_self (mp m') (tm m') = Ok ms -> forall k v, In (k, v) ms -> Qabs v <= lam_fun l v) ->
+  boolean_env s -> (forall s', boolean_env s' -> eval s (tm D) <= eval s' (tm D)) ->
+  let xs := ConvertProofs.pull (mp m') s in
+  (forall c, In c cs -> cR c xs) /\
+  (forall x, boolean_env x -> (forall c, In c cs -> cR c x) -> f xs <= f x) /\
+  eval s (tm D) == f xs.
+Proof.
+  intros H Hk Hna Hok f HW Hlam Hx0 HR0 HD Hbm HI Hl Hpen Hs Hmin xs.
+  destruct (reduce_minimiser _ _ _ _ _ _ HD Hbm HI Hl Hpen s Hs Hmin) as [E Mx]. fold xs in E, Mx.
+  destruct (workflow_seq cs m m' W x0 xs H Hk Hna Hok HW Hlam Hx0 HR0 (pull_bool _ _ Hs) Mx) as (A & B0 & C0).
+  split; [exact A|]. split; [exact B0|]. rewrite <- E. exact C0.
+Qed.
